@@ -150,10 +150,25 @@ func c04Run(c *core.Ctx, k c04Case) {
 		return
 	}
 	key, _ := json.Marshal(k)
+	t0 := time.Now()
 	o := c04Exec(k)
 	if o.world != nil {
 		defer bgClose.Go(o.world.Close)
 	}
+	defer func() {
+		tr := "tcp"
+		if k.UDP {
+			tr = "udp"
+		}
+		c.Hist("case seconds "+tr, fmt.Sprintf("%2d", int(time.Since(t0).Seconds())))
+		if os.Getenv("VH_SLOW") != "" && time.Since(t0) > 12*time.Second {
+			el := time.Duration(0)
+			if o.tr != nil {
+				el = o.tr.Elapsed
+			}
+			c.Hist("slow", fmt.Sprintf("%s %s %s/%s t=%s c2s=%v total=%ds transfer=%ds", tr, k.PatternName, k.Mut.Kind, k.Mut.Class, k.Mut.Target, k.C2S, int(time.Since(t0).Seconds()), int(el.Seconds())))
+		}
+	}()
 	if o.setup != "" {
 		c.Eval(string(key), false)
 		c.Violate("C04/setup", "endpoints failed before the scenario could run: "+o.setup, k)
@@ -177,7 +192,22 @@ func c04Run(c *core.Ctx, k c04Case) {
 	c.Hist("direction", dirName)
 	if !applied && k.Mut.Kind != "none" {
 		c.Hist("branch", "mutation-not-applicable")
-		c.Hist("not-applied", fmt.Sprintf("%s %s %s/%s target=%q", tr, k.PatternName, k.Mut.Kind, k.Mut.Class, k.Mut.Target))
+		extra := ""
+		if !k.UDP && o.tcp != nil {
+			o.tcp.mu.Lock()
+			for _, c2s := range []bool{true, false} {
+				d := o.tcp.dir(0, c2s)
+				n := 0
+				for _, u := range d.units {
+					if u.has(k.Mut.Class) {
+						n++
+					}
+				}
+				extra += fmt.Sprintf(" c2s=%v:units=%d,with-class=%d", c2s, len(d.units), n)
+			}
+			o.tcp.mu.Unlock()
+		}
+		c.Hist("not-applied", fmt.Sprintf("%s %s %s/%s target=%q mutated-c2s=%v%s", tr, k.PatternName, k.Mut.Kind, k.Mut.Class, k.Mut.Target, k.C2S, extra))
 	}
 	if applied {
 		c04Cells.add(k)
@@ -229,7 +259,11 @@ func c04Run(c *core.Ctx, k c04Case) {
 	}
 	if k.UDP {
 		// the whole run through the end-to-end model of the receive path, applied or not
+		t1 := time.Now()
 		c04CompareUDPSeq(c, k, o)
+		if os.Getenv("VH_SLOW") != "" {
+			c.Hist("seq compare seconds", fmt.Sprintf("%2d (exec %2d)", int(time.Since(t1).Seconds()), int(t1.Sub(t0).Seconds())))
+		}
 	}
 	if !applied {
 		return
@@ -315,7 +349,7 @@ func c04CompareTCP(c *core.Ctx, k c04Case, o *c04Outcome) {
 	delta := nonceDelta(nonce0, mutated[:24])
 	ent := c04HonestTCP(units)
 	c.Compared()
-	reply := c.Model.Ask("c04-tcp %d %s %s", delta, core.Hex(mutated[24:]), strings.Join(ent, " "))
+	reply := c04Procs.ask(c, fmt.Sprintf("c04-tcp %d %s %s", delta, core.Hex(mutated[24:]), strings.Join(ent, " ")))
 	f := strings.Fields(reply)
 	if len(f) < 4 || f[0] != "ok" {
 		c.Disagree("C04/corr/tcp-model-error", "model reply: "+reply, k)
@@ -691,7 +725,7 @@ func c04MkCase(r *rand.Rand, udp bool, pat string, c2s bool, m c04Mut) c04Case {
 		}
 	}
 	if m.Kind == "reflect" && !udp && m.Ext {
-		k.GapUs = 3000 // both directions must be under way when the target passes: pace the writers
+		k.GapUs = 20000 // both directions must be under way when the target passes: pace the writers
 	}
 	if m.Target == "ack" {
 		// pure acks travel against the data: the mutated direction's sender writes one small chunk
@@ -714,6 +748,7 @@ func genC04Boundaries(r *rand.Rand) []c04Case {
 		k := c04MkCase(r, udp, pat, n%2 == 0, m)
 		n++
 		k.Label = label
+		c04Shrink(&k)
 		if opt != nil {
 			opt(&k)
 		}
@@ -815,6 +850,21 @@ func genC04Boundaries(r *rand.Rand) []c04Case {
 	}
 	cases = append(cases, c04Specials(r)...)
 	return cases
+}
+
+// c04Shrink: the deterministic cells need multi-segment traffic in both directions, not volume: eight writes
+// per side, the largest a few segments long.
+func c04Shrink(k *c04Case) {
+	for _, w := range []*[]int{&k.ClientWrites, &k.ServerWrites} {
+		if len(*w) > 8 {
+			*w = (*w)[:8]
+		}
+		for i := range *w {
+			if (*w)[i] > 6000 {
+				(*w)[i] = 4000 + (*w)[i]%2000
+			}
+		}
+	}
 }
 
 // c04Specials: the shared-nonce witnesses (crafted 32-byte application chunks)
@@ -952,6 +1002,8 @@ func init() {
 				c.Sample(cases[i])
 			}
 			c04Cells = &c04Matrix{}
+			c04Procs = newC04Pool(c, 6)
+			defer func() { c04Procs.close(); c04Procs = nil }()
 			core.Parallel(len(cases), 48, func(i int) { c04Run(c, cases[i]) })
 			// the class x kind matrix of what was actually APPLIED; a cell the deterministic part could
 			// not fill gets one more attempt, then it is a failure of the generator
